@@ -243,8 +243,8 @@ type c16Issuer struct {
 	// EverRemoved: the issuer was absent from the mount at some time; certificates of an absent issuer
 	// are listed on the then-default issuer's CRL ("unassigned"), so placement checks stop for them.
 	EverRemoved bool
-	// StaleAssoc: re-imported while CRL building was disabled, i.e. no build has re-associated the
-	// revocation records of its certificates with the new issuer id yet.
+	// StaleAssoc: an issuer of this group was deleted or re-imported while CRL building was disabled,
+	// i.e. revocation records may still name a deleted issuer id and no build has re-associated them.
 	StaleAssoc bool
 }
 
@@ -604,6 +604,13 @@ func (w *c16World) removeIssuer(i int) bool {
 	delete(w.obs, is.ID)
 	is.ID = ""
 	is.EverRemoved = true
+	if w.cfg.Disable {
+		for j := range w.iss {
+			if w.iss[j].Group == is.Group {
+				w.iss[j].StaleAssoc = true
+			}
+		}
+	}
 	w.r.Count("issuer_removed", 1)
 	return true
 }
@@ -621,7 +628,13 @@ func (w *c16World) readdIssuer(i int) bool {
 	}
 	is.ID = ids[0]
 	is.Revoked = false // a re-imported issuer entry starts unrevoked; its old revocation record (if any) stays in the ledger
-	is.StaleAssoc = w.cfg.Disable
+	if w.cfg.Disable {
+		for j := range w.iss {
+			if w.iss[j].Group == is.Group {
+				w.iss[j].StaleAssoc = true
+			}
+		}
+	}
 	w.r.Count("issuer_readded", 1)
 	return true
 }
@@ -785,10 +798,14 @@ func (w *c16World) revoke(ci int, via string) bool {
 		}
 		return true
 	}
+	idAt := ""
+	if k := w.crlIssuer(c.Iss); k >= 0 {
+		idAt = w.iss[k].ID
+	}
 	if rt <= 0 {
 		w.violate("C16-revoke-success-without-time", fmt.Sprintf("revocation of %s via %s reported state=revoked with revocation_time=%d", c.Serial, via, rt), nil)
 	}
-	w.ledger[c.Serial] = &c16Entry{Cert: ci, RevTime: rt, RevRFC: rfc, Via: via, AutoOffAtSuccess: !w.cfg.Auto, IDAtSuccess: w.iss[c.Iss].ID, numPending: true}
+	w.ledger[c.Serial] = &c16Entry{Cert: ci, RevTime: rt, RevRFC: rfc, Via: via, AutoOffAtSuccess: !w.cfg.Auto, IDAtSuccess: idAt, numPending: true}
 	w.order = append(w.order, c.Serial)
 	w.r.Count("ledger_entries", 1)
 	return true
@@ -1087,7 +1104,11 @@ func (w *c16World) check(at string) {
 		if prev, ok := w.obs[is.ID]; ok && prev.sum != sum {
 			r.Count("crl_rebuilds_observed", 1)
 			if !w.cfg.Disable {
-				is.StaleAssoc = false // a full build re-associates revocation records with present issuers
+				for j := range w.iss {
+					if w.iss[j].Group == is.Group {
+						w.iss[j].StaleAssoc = false // a full build re-associates revocation records with present issuers
+					}
+				}
 			}
 			if cmp := rl.Number.Cmp(prev.num); cmp <= 0 {
 				class := "C16-crl-number-not-increasing"
@@ -1210,7 +1231,7 @@ func (w *c16World) check(at string) {
 				if noAnswer && is.StaleAssoc {
 					// the issuer was deleted and imported again while CRL building is disabled: nothing has
 					// re-associated the revocation record with the new issuer id, and OCSP only looks at the old id
-					ev(e, "C16-ocsp-unknown-after-issuer-reimport-while-crl-disabled", fmt.Sprintf("[%s] OCSP for %s answers %q although the certificate is revoked and its issuer %s is present again (re-imported while config/crl disable=true)", at, serial, o.status, is.Name), nil)
+					ev(e, "C16-ocsp-no-answer-stale-issuer-association-while-crl-disabled", fmt.Sprintf("[%s] OCSP for %s answers %q although the certificate is revoked and its issuer %s is present: an issuer with this subject and key was deleted or re-imported while config/crl disable=true, nothing has re-associated the revocation record since, and OCSP only looks at the recorded (deleted) issuer id", at, serial, o.status, is.Name), nil)
 				} else if noAnswer && is.EverRemoved && c.IsIssuer >= 0 && w.iss[c.IsIssuer].ID != "" {
 					// same root cause as the CRL symptom of this class: the CRL builder skips the revocation
 					// record of a certificate that is itself an issuer, so the record is never re-associated
@@ -1286,6 +1307,12 @@ func (w *c16World) check(at string) {
 				// F5 signature: the record exists, the CRL build that followed it was interrupted, no build
 				// has succeeded since (the served CRL is still the one from before), auto-rebuild is off.
 				class = "C16-F5-revoked-serial-missing-from-crl-after-failed-rebuild"
+				extra["f5_signature"] = map[string]any{
+					"revocation_record_exists": true, "auto_rebuild": false, "crl_disabled": false,
+					"operation_interrupted_after_record_was_written": w.cut.Kind + " " + w.cut.At,
+					"crl_number_before_interruption": nb.String(), "crl_number_served_now": rl.Number.String(),
+					"no_complete_build_succeeded_since": true,
+				}
 			}
 		}
 		if c.IsIssuer >= 0 && w.iss[c.IsIssuer].ID != "" && class == "C16-serial-missing-from-crl" {
